@@ -581,6 +581,19 @@ pub fn explore<O>(
     bound: usize,
     max_execs: usize,
     shard: (usize, usize),
+    run: impl FnMut(&[OpDesc]) -> Exec<O>,
+    visit: impl FnMut(&[OpDesc], &Exec<O>),
+) -> (usize, bool) {
+    explore_filtered(bound, max_execs, shard, |_, _| true, run, visit)
+}
+
+/// like `explore`; `allow(chosen, alternative)` restricts which deviations are taken (e.g. only
+/// switches to another command)
+pub fn explore_filtered<O>(
+    bound: usize,
+    max_execs: usize,
+    shard: (usize, usize),
+    allow: impl Fn(&OpDesc, &OpDesc) -> bool,
     mut run: impl FnMut(&[OpDesc]) -> Exec<O>,
     mut visit: impl FnMut(&[OpDesc], &Exec<O>),
 ) -> (usize, bool) {
@@ -612,6 +625,9 @@ pub fn explore<O>(
             for alt in 0..st.pending.len() {
                 // identical descriptions are interchangeable
                 if st.pending[alt] == st.pending[st.choice] || (alt > 0 && st.pending[alt] == st.pending[alt - 1]) {
+                    continue;
+                }
+                if !allow(&st.pending[st.choice], &st.pending[alt]) {
                     continue;
                 }
                 if is_root {
